@@ -1,6 +1,6 @@
 CONSTANTS
   MaxNodes = 6
-  Conds = {"none", "skipA", "includeA", "includeB", "skipTrue", "includeFalse"}
+  Conds = {"none", "skipA", "includeA", "includeB", "skipTrue", "includeFalse", "includeAskipB", "skipAincludeA"}
   Aliases = {"", "x"}
 INIT Init
 NEXT Next
